@@ -20,7 +20,7 @@ ASSUMPTIONS = ['a blocked constructor for an unknown context is judged by C20, h
 SHRINK = 'greedy'
 SHRINK_RUNS = 10
 TIME_BUDGET = {'quick': 170, 'thorough': 1700}
-REQUIRED = {'quick': {'op:create_duplicate': 30, 'op:delete': 60, 'op:start_worker': 80, 'op:start_worker_unknown': 20, 'op:delete_unknown': 20, 'recreate_after_delete': 10, 'default_call_after_override': 15, 'call_with_fewer_positionals_than_context_defaults': 30, '>=2_live_workers_in_one_context': 60,
+REQUIRED = {'quick': {'op:create_duplicate': 30, 'op:delete': 60, 'op:start_worker': 80, 'op:start_worker_unknown': 20, 'op:delete_unknown': 20, 'recreate_after_delete': 2, 'context_workers_blocked': 10, 'default_call_after_override': 15, 'call_with_fewer_positionals_than_context_defaults': 30, '>=2_live_workers_in_one_context': 60,
                       'worker_result_checked': 60},
             'thorough': {'op:create_duplicate': 300, 'op:delete': 300, 'op:start_worker': 800}}
 TARGETS = {'t1': vtargets.ctx_t1, 't2': vtargets.ctx_t2}
@@ -43,6 +43,8 @@ def strategy(tier):
         st.tuples(st.just('delete'), i), st.tuples(st.just('delete_unknown'), i),
         st.tuples(st.just('start_worker'), i), st.tuples(st.just('start_worker'), i), st.tuples(st.just('start_worker'), i, st.sampled_from([2, 3])),
         st.tuples(st.just('start_worker_unknown'), i),
+        st.tuples(st.just('block_workers'), i),      # every live worker of the context gets stuck in a C call: deleting the context then takes seconds
+        st.tuples(st.just('delete_with_4_blocked_workers'), i),
         st.tuples(st.just('enqueue'), st.integers(0, 5), st.integers(0, 99)), st.tuples(st.just('enqueue'), st.integers(0, 5), st.integers(0, 99), st.sampled_from([4, 7])),
         st.tuples(st.just('enqueue'), st.integers(0, 5), st.integers(0, 99), st.sampled_from([None, 4, 7])),    # per-call keyword override of the context's default
         st.tuples(st.just('enqueue'), st.integers(0, 5), st.integers(0, 99)), st.tuples(st.just('wait'), st.integers(0, 5)))
@@ -75,7 +77,13 @@ def run_case(case, ctx):
     deleted_once = set()
     broke = False
     try:
+        ops = []
         for op in case['ops']:
+            if op[0] == 'delete_with_4_blocked_workers':
+                ops += [['start_worker', op[1], 4], ['block_workers', op[1]], ['delete', op[1]]]
+            else:
+                ops.append(op)
+        for op in ops:
             what = op[0]
             site = what
             n_log = len(log)
@@ -163,8 +171,23 @@ def run_case(case, ctx):
                         broke = True
                     except BaseException as e:
                         log.append(['start_worker_unknown', type(e).__name__])
+                elif what == 'block_workers':
+                    i = op[1]
+                    if i not in model:
+                        continue
+                    nb = 0
+                    for rec in model[i]['workers']:
+                        if rec['alive'] and not rec.get('blocked'):
+                            bounded(rec['w'].enqueue, 10, 'SLEEP')
+                            rec['blocked'] = True
+                            nb += 1
+                    if nb:
+                        time.sleep(0.2)
+                        out.label('context_workers_blocked')
+                        if sum(1 for rec in model[i]['workers'] if rec.get('blocked')) >= 3:
+                            out.label('>=3_blocked_workers_in_context')
                 elif what == 'enqueue':
-                    live = [r for r in workers if r['alive']]
+                    live = [r for r in workers if r['alive'] and not r.get('blocked')]
                     if not live:
                         continue
                     rec = live[op[1] % len(live)]
@@ -193,7 +216,7 @@ def run_case(case, ctx):
                     if v != exp:
                         out.viol('context_worker_wrong_result', 'enqueue', f'worker of context {rec["id"]} ({rec["t"]}, k={rec["k"]}): call({x}) -> {v!r}, expected {exp!r}')
                 elif what == 'wait':
-                    live = [r for r in workers if r['alive']]
+                    live = [r for r in workers if r['alive'] and not r.get('blocked')]
                     if not live:
                         continue
                     rec = live[op[1] % len(live)]
